@@ -201,6 +201,10 @@ class Chipset(object):
                     time.sleep(0.001)
                 raise error
 
+        if len(frame) < 8:
+            self.log.error("insufficient frame length")
+            raise IOError(errno.EIO, os.strerror(errno.EIO))
+
         if frame.startswith(self.SOF + b'\xFF\xFF'):
             # extended frame
             if sum(frame[5:8]) & 0xFF != 0:
@@ -223,14 +227,14 @@ class Chipset(object):
             self.log.debug("invalid frame start sequence")
             raise IOError(errno.EIO, os.strerror(errno.EIO))
 
-        if not sum(frame) & 0xFF == 0:
+        if not (sum(frame[:-1]) & 0xFF == 0 and frame[-1] == 0):
             self.log.error("frame data checksum error")
             raise IOError(errno.EIO, os.strerror(errno.EIO))
 
         if frame[0] == 0x7F:  # error frame
             self.chipset_error(0x7F)
 
-        if not frame[0] == 0xD5:
+        if not (frame[0] == 0xD5 and len(frame) >= 4):
             self.log.error("invalid frame identifier")
             raise IOError(errno.EIO, os.strerror(errno.EIO))
 
